@@ -133,6 +133,49 @@ def shadow_family(backend):
     return out
 
 
+def md_value_family(backend):
+    """Queries whose metadata carries sequence VALUES (include files, arguments, code lines, enum values, script lines)
+    written as tuples and as lists: the Python wire keeps a tuple a tuple, qastle text only has lists."""
+    a = qgen.ALPHA[backend]
+    S = f"e.{a.primary}('A')"
+    ckind = {"atlas": "add_atlas_event_collection_info", "cms_aod": "add_cms_aod_event_collection_info", "cms_miniaod": "add_cms_miniaod_event_collection_info"}[backend]
+    out = []
+    for mk in (tuple, list):
+        fn = {"metadata_type": "add_cpp_function", "name": "vmscale", "include_files": mk(["vector", "cmath"]), "arguments": mk(["x", "y"]),
+              "code": mk(["double result = x * y;"]), "return_type": "double"}
+        out.append(f"MetaData(ds, {fn!r}).Select(lambda e: {S}.Select(lambda j: vmscale(j.pt(), 2)))")
+        coll = {"metadata_type": ckind, "name": "Things", "include_files": mk(["pkg/a.h", "pkg/b.h"]), "container_type": "std::vector<" + a.primary_cls + ">",
+                "element_type": a.primary_cls, "contains_collection": True}
+        if backend == "atlas":
+            coll["link_libraries"] = mk(["libA", "libB"])
+        else:
+            coll["element_pointer"] = False
+        out.append(f"MetaData(ds, {coll!r}).Select(lambda e: e.Things('A').Select(lambda t: t.pt()))")
+        inj = {"metadata_type": "inject_code", "name": "blk", "body_includes": mk(["x1.h", "x2.h"])}
+        if backend == "atlas":
+            inj.update({"header_includes": mk(["h1.h", "h2.h"]), "private_members": mk(["int m_a;", "int m_b;"]), "instance_initialization": mk(["m_a(0)", "m_b(1)"]),
+                        "ctor_lines": mk(["m_a = 1;", "m_b = 2;"]), "initialize_lines": mk(["m_a = 3;"]), "link_libraries": mk(["libC", "libD"])})
+        out.append(f"MetaData(ds, {inj!r}).Select(lambda e: {S}.Count())")
+        en = {"metadata_type": "define_enum", "namespace": "NS", "name": "Color", "values": mk(["Red", "Blue"])}
+        out.append(f"MetaData(ds, {en!r}).Select(lambda e: {S}.Select(lambda j: j.color(NS.Color.Blue)))")
+        if backend == "atlas":
+            js = {"metadata_type": "add_job_script", "name": "s1", "script": mk(["# line one", "# line two"]), "depends_on": mk([])}
+            js2 = {"metadata_type": "add_job_script", "name": "s2", "script": mk(["# other"]), "depends_on": mk(["s1"])}
+            out.append(f"MetaData(MetaData(ds, {js!r}), {js2!r}).Select(lambda e: {S}.Count())")
+    return out
+
+
+def family_programs(backend, tier):
+    """Programs of the hand-enumerated families (calls with arguments at mixed loop depths, explicit Aggregate, tuples /
+    lists / dictionaries carried between Selects): constructs the typed grammar has no production for.  Quick: every 97th (ATLAS) / 389th (CMS); thorough: every 7th / 29th (about 185 variants per program)."""
+    from mc.lang import aggfam, argscope, mixfam, structfam
+    out = []
+    for fam in (argscope, mixfam, aggfam, structfam):
+        qs = [q for _ctx, q in fam.queries(backend) if "vmtwice(" not in q]
+        out += qs[::7 if backend == "atlas" else 29] if tier != "quick" else qs[::97 if backend == "atlas" else 389]
+    return out
+
+
 def main(tier="quick"):
     rep = Report(PROP, tier)
     known = F.load(PROP)
@@ -148,6 +191,8 @@ def main(tier="quick"):
             for term in g.queries(k):
                 texts.append(qgen.render(term))
         texts += shadow_family(backend)
+        texts += family_programs(backend, tier)
+        texts += md_value_family(backend)
         nprog += len(texts)
         for i in range(0, len(texts), 8):
             work.append((backend, texts[i:i + 8], pool, mds))
